@@ -245,3 +245,8 @@ Proof.
   cbn [buffer_action off_env_action o_u o_noise]. induction 1 as [|a l h u lo hi H _ IH]; cbn [map3]; constructor; [|exact IH].
   apply unscale_scale. exact H.
 Qed.
+
+(* ------------------------------------------------------------------ gSDE resampling / per-env noise reset guards *)
+Lemma frag_off_sde u f j hn :
+  off_sde_guard u f j = sde_resample u f j /\ off_sde_start_guard u = u /\ off_noise_reset_guard hn = hn.
+Proof. repeat split; reflexivity. Qed.
